@@ -306,6 +306,9 @@ class ParsedSubsetState(SubsetState):
         super(ParsedSubsetState, self).__init__()
         self._parsed = parsed
 
+    def copy(self):
+        return ParsedSubsetState(self._parsed)
+
     def to_mask(self, data, view=None):
         """ Calculate the new mask by evaluating the dereferenced command """
         result = self._parsed.evaluate(data)
